@@ -3,6 +3,7 @@
   the reference forests with nesting ≤ 10 and ≤ 255 nested references per top-level reference.
 -/
 import Rox.Spec.Refs
+import Rox.Lemmas.LdRefine
 
 namespace Rox.Props.C09
 open Rox Rox.Spec
@@ -124,5 +125,21 @@ theorem incRefs_le (ld ld' : LD) (h : ld.incRefs = some ld') (hr : ld.refs ≤ 2
 
 theorem decDepth_le (ld : LD) : ld.decDepth.depth ≤ ld.depth ∧ ld.decDepth.refs ≤ ld.refs := by
   unfold LD.decDepth; split <;> simp <;> omega
+
+/-- **The parser follows the protocol** (every token, every context, every depth of entity
+re-entry): whatever the builder does to the loop detector while it successfully handles a token is
+a `walk` over a forest of references — `inc_references; inc_depth; <expansion>; dec_depth` once
+per expanded reference, for references in text and in attribute values alike. Together with
+`walk_inner` / `walk_top` / `accepts_iff` this gives the bounds for the real expansion history of
+every accepted document, and shows the detector is consulted for nothing else. -/
+theorem builder_walks_protocol (T : Tables) (txt : Bytes) (d : Nat) (t : Token) (c c' : Ctx)
+    (h : token T txt d t c = .ok c') : ∃ f : Forest, walk c.ld f = some c'.ld :=
+  Rox.Lemmas.token_walk T txt d t c c' h
+
+/-- The whole parse: the detector starts at `⟨0, 0⟩` and what it did is a walk over the forest of
+all references the document made the parser expand. -/
+theorem parse_walks_protocol (T : Tables) (txt : Bytes) (opt : Opt) (c : Ctx)
+    (h : parseCtx T txt depthFuel opt = .ok c) : ∃ f : Forest, walk ⟨0, 0⟩ f = some c.ld :=
+  Rox.Lemmas.parseCtx_walk T txt opt c h
 
 end Rox.Props.C09
